@@ -26,13 +26,20 @@ EXTRA = [
     # maps built while rendering, with keys of several kinds, printed whole: the text must not depend on the map instance
     ("mixed-key-map", [["m.html", "{% set m = {true: x, 1: x, 0: xs, false: 2, 'k': x, 3: 3, 'a': 4, 2: 5} %}{{ m }}|{% set n = {...m, 7: x, 'z': 1} %}{{ n }}|{{ [m, n] }}"]],
      {"op": "render", "name": "m.html"}),
+    # maps built while rendering and then ITERATED (for, keys, values, pairs, a group_by result): the order must not depend
+    # on the map instance -- every render builds a new one
+    ("map-iterated", [["mi.html", "{% set m = {'a': x, 'b': x, 'c': 1, 'd': 2, 'e': 3, 'f': 4, 'g': 5, 'h': 6} %}{% for k, v in m %}{{ k }}={{ v }};{% endfor %}"
+                                  "|{{ m | keys | join(sep=',') }}|{{ m | values | join(sep=',') }}|{% for p in m | pairs %}{{ p[0] }}{% endfor %}"
+                                  "|{% for k, v in {...m, 'i': x} %}{{ k }}{% endfor %}|{% for k, g in ps | group_by(attribute='g') %}{{ k }}{% endfor %}"
+                                  "|{{ [k for k, v in m] | join }}"]],
+     {"op": "render", "name": "mi.html"}),
     # the same name in the global context and in the render context (the render context wins, through every channel)
     ("global-shadowed", [["g.html", "{{ x }}|{{ onlyg }}|{% include 'gi.html' %}{% block b %}[{{ x }}{{ onlyg }}]{% endblock %}"], ["gi.html", "I{{ x }}{{ onlyg }}"]], {"op": "render", "name": "g.html"}),
     ("global-shadowed-block", [["g.html", "{% block b %}[{{ x }}{{ onlyg }}{% include 'gi.html' %}]{% endblock %}"], ["gi.html", "I{{ x }}{{ onlyg }}"]], {"op": "render_block", "name": "g.html", "block": "b"}),
     ("global-shadowed-str", [["gi.html", "I{{ x }}{{ onlyg }}"]], {"op": "render_str", "src": "{{ x }}{{ onlyg }}{% include 'gi.html' %}", "auto": True}),
     ("capture", [["p.html", "{% set v %}a{{ x }}b{% endset %}{{ v }}{{ v | safe }}{% for c in x %}{{ c }}{% endfor %}"]], {"op": "render", "name": "p.html"}),
 ]
-ECTX = {"x": "<&é\">", "xs": [1, 2, 3], "title": "T&t"}
+ECTX = {"x": "<&é\">", "xs": [1, 2, 3], "title": "T&t", "ps": [{"g": g, "n": i} for i, g in enumerate("qrstuvwq")]}
 
 
 def run(tier):
